@@ -277,7 +277,9 @@ type c14file struct {
 	onePoint bool // PTS file declaring one point: a cut first line with >= 3 fields is a valid file of fewer fields
 	read     c14reader
 	readR    func(io.Reader) c14out
-	sampled  bool // large file: sampled cuts in both tiers, few oracle lines
+	sampled  bool  // large file: sampled cuts in both tiers, few oracle lines
+	extraKs  []int // cut points that must be exercised whatever the sampling
+	fewCuts  bool  // very large file: only extraKs, a few random cuts, the last 20 and the first 5
 	label    string
 }
 
@@ -407,6 +409,41 @@ func (c *Ctx) c14drive(f c14file) {
 	ks, all := c.c14cutPoints(len(f.data))
 	if f.sampled && all {
 		ks, all = c.c14sampledCuts(len(f.data)), false
+	}
+	if f.fewCuts {
+		ks, all = []int{}, false
+		for i := 0; i < 5; i++ {
+			ks = append(ks, i)
+		}
+		for i := 0; i < 25; i++ {
+			ks = append(ks, c.Rng.Intn(len(f.data)+1))
+		}
+		for i := len(f.data) - 20; i <= len(f.data); i++ {
+			if i > 5 {
+				ks = append(ks, i)
+			}
+		}
+		sort.Ints(ks)
+		uniq := ks[:0]
+		for i, k := range ks {
+			if i == 0 || k != ks[i-1] {
+				uniq = append(uniq, k)
+			}
+		}
+		ks = uniq
+	}
+	if !all && len(f.extraKs) > 0 {
+		set := map[int]bool{}
+		for _, k := range ks {
+			set[k] = true
+		}
+		for _, k := range f.extraKs {
+			if k >= 0 && k <= len(f.data) && !set[k] {
+				ks = append(ks, k)
+				set[k] = true
+			}
+		}
+		sort.Ints(ks)
 	}
 	cls := make([]string, len(ks))
 	specParts := make([]string, len(ks))
@@ -1009,6 +1046,46 @@ func runC14(c *Ctx) {
 				}
 				c.c14drive(c14file{format: "stl", data: data, model: data, read: c14readStl, readR: c14readStlR, label: label})
 			}
+		}
+
+		// --- binary STL whose triangle count is a multiple of 256 (low count byte 0), cut around the count field ---------
+		if k == 1 || k == 2 || (c.Tier == "thorough" && k == 3) {
+			nt := map[int]int{1: 256, 2: 512, 3: 65536}[k]
+			few := nt > 1000
+			var b bytes.Buffer
+			if err := stl.WriteMesh(&b, c.c14mesh(50, nt, false, false, false)); err == nil {
+				extra := []int{}
+				for x := 76; x <= 92; x++ {
+					extra = append(extra, x)
+				}
+				for x := 0; x < 6; x++ { // record boundaries
+					extra = append(extra, 84+50*c.Rng.Intn(nt), 84+50*c.Rng.Intn(nt)+1)
+				}
+				c.c14drive(c14file{format: "stl", data: b.Bytes(), model: b.Bytes(), sampled: true, fewCuts: few, extraKs: extra,
+					read: c14readStl, readR: c14readStlR, label: fmt.Sprintf("stl.%dtris", nt)})
+			}
+		}
+
+		// --- PTS declaring more than 65536 points, cut on line boundaries after row 65536 ---------------------------------
+		if k == 0 {
+			n := 65536 + 5 + c.Rng.Intn(20)
+			var sb strings.Builder
+			fmt.Fprintf(&sb, "%d\n", n)
+			lineEnds := make([]int, 0, n)
+			for i := 0; i < n; i++ {
+				fmt.Fprintf(&sb, "%d %d %d\n", i+1, 2*i+1, 7)
+				lineEnds = append(lineEnds, sb.Len())
+			}
+			data := []byte(sb.String())
+			extra := []int{}
+			for _, row := range []int{1, 2, 4095, 4096, 65534, 65535, 65536, 65537, 65538, n - 2, n - 1} {
+				if row >= 1 && row <= n {
+					e := lineEnds[row-1] // just after the line feed of row `row`
+					extra = append(extra, e-1, e, e+1)
+				}
+			}
+			c.c14drive(c14file{format: "pts", data: data, model: data, ascii: true, sampled: true, fewCuts: true, extraKs: extra,
+				read: c14readPts, readR: c14readPtsR, label: "pts.65536+"})
 		}
 
 		// --- PTS -------------------------------------------------------------------------------------------------
